@@ -192,3 +192,28 @@ func VerifC15Load() {
 		nd.Cover("several loaders")
 	}
 }
+
+// C15/C12 with many loaders: merely ordered loaders of equal Order are consulted in the order they
+// were added, also when a group is larger than the sorter's small-input special case.
+func VerifC15ManyLoaders() {
+	n := []int{13, 16, 30}[nd.Choose(3)]
+	b := &vBinder{fail: -1}
+	c := NewConfigure()
+	c.SetBinder(b)
+	var calls []int
+	order := make([]int, n)
+	for i := 0; i < n; i++ {
+		order[i] = i % 3
+		c.AddLoaders(&vLoadOrd{vLoad{id: i, o: order[i], doc: byte(i), calls: &calls}})
+	}
+	nd.Assert(c.Initialize() == nil, "C15: loading succeeds")
+	nd.Assert(len(calls) == n, "C15: every loader is consulted exactly once")
+	for k := 1; k < len(calls); k++ {
+		a, d := calls[k-1], calls[k]
+		nd.Assert(order[a] <= order[d], "C12: loaders: Order never decreases inside a group")
+		if order[a] == order[d] {
+			nd.Assert(a < d, "C15: loaders of equal rank are applied in the order they were added, however many there are")
+		}
+	}
+	nd.Cover("many loaders")
+}
